@@ -151,6 +151,33 @@ func init() {
 		*p = fr.i.binopInt("+", *p, a[1], types.Typ[types.Int32])
 		return *p
 	})
+	for _, tn := range []struct {
+		n string
+		t types.Type
+	}{{"Int32", types.Typ[types.Int32]}, {"Int64", types.Typ[types.Int64]}, {"Uint32", types.Typ[types.Uint32]}, {"Uint64", types.Typ[types.Uint64]}, {"Uintptr", types.Typ[types.Uintptr]}} {
+		tn := tn
+		if _, ok := intrinsics["sync/atomic.Add"+tn.n]; !ok {
+			reg("sync/atomic.Add"+tn.n, func(fr *frame, a []value) value {
+				p := a[0].(*value)
+				*p = fr.i.binopInt("+", *p, a[1], tn.t)
+				return *p
+			})
+		}
+		if _, ok := intrinsics["sync/atomic.Load"+tn.n]; !ok {
+			reg("sync/atomic.Load"+tn.n, func(fr *frame, a []value) value { return *(a[0].(*value)) })
+		}
+		if _, ok := intrinsics["sync/atomic.Swap"+tn.n]; !ok {
+			reg("sync/atomic.Swap"+tn.n, func(fr *frame, a []value) value {
+				p := a[0].(*value)
+				old := *p
+				*p = a[1]
+				return old
+			})
+		}
+		if _, ok := intrinsics["sync/atomic.Store"+tn.n]; !ok {
+			reg("sync/atomic.Store"+tn.n, func(fr *frame, a []value) value { *(a[0].(*value)) = a[1]; return nil })
+		}
+	}
 	reg("sync/atomic.AddInt64", func(fr *frame, a []value) value {
 		p := a[0].(*value)
 		*p = fr.i.binopInt("+", *p, a[1], types.Typ[types.Int64])
